@@ -49,6 +49,14 @@ Theorem C19_uniform_count : forall (n : nat) (draw : nat -> pt), List.length (un
 Proof. exact uniform_length. Qed.
 Print Assumptions C19_uniform_count.
 
+(* clause "every generated point lies in the unit square", uniform: nothing but the contract of rng.uniform
+   (draws in [0, 1), hypothesis) *)
+Theorem C19_uniform_in_unit_square : forall (sc : Z) (n : nat) (draw : nat -> pt) (q : Q * Q),
+  0 < sc -> (forall i, 0 <= fst (draw i) <= sc /\ 0 <= snd (draw i) <= sc) ->
+  In q (map (to_unit sc) (uniform n draw)) -> (0 <= fst q <= 1 /\ 0 <= snd q <= 1)%Q.
+Proof. exact uniform_in_unit_square. Qed.
+Print Assumptions C19_uniform_in_unit_square.
+
 (* clause "nothing depends on or disturbs the global random state when a generator is supplied":
    in today's pointsets.py every call on the global np.random module is np.random.default_rng under
    `if rng is None`; every other random call goes through the rng parameter *)
